@@ -19,8 +19,9 @@ K2 `ImportCollector.get_formatted_imports` / `get_import_statements` / `RenderCo
 K3 `ModelsEmitter._generate_init_py_content` — same metamorphic claim for the models/__init__.py export list: schema
     names symbolic, dict insertion order solver-chosen.
 
-K4 the id()-derived fallback name of `_parse_schema` never reaches a result: `id` is stubbed by a fresh symbolic integer
-    and the names in the parsed result must be the same for every value of it.
+K4 shared-core histories (props/c09h.py): generate a; generate b; re-run either without force - through the real
+    generate() and the real ExceptionsEmitter on the in-memory file system, status codes symbolic.  P: the re-run of an
+    unchanged document succeeds and touches nothing.
 """
 from __future__ import annotations
 
@@ -362,6 +363,9 @@ def specs(tier):
     if not q:
         out.append((MOD, "mk_models_init", (3, 2)))
         out.append((MOD, "mk_models_init", (4, 1)))
+    from props import c09h
+
+    out.extend(c09h.specs(tier, "c09"))
     return out
 
 
@@ -384,6 +388,14 @@ def run(tier, rep, only=None):
 def replay(path):
     v = json.load(open(path))["violation"]
     name = v["obligation"]
+    if name.startswith("shared_core_history"):
+        from props import c09h
+
+        ob, inp = c09h.replay_ob(v)
+        r = ob.run_real(inp)
+        why = ob.verdict(inp, r, ob.which)
+        print("replay %s inputs=%r -> %s" % (name, inp, "holds" if why is None else why))
+        return 0 if why is None else 1
     ob = None
     for spec in specs("thorough") + specs("quick"):
         o = explore.build(spec)
